@@ -66,7 +66,7 @@ PROPS = {
                  "non-trivial = the first sync issued at least one child write and the initial store held at least one seeded object; distinct = distinct choice sequences"),
         "jobs": [
             {"name": "c01-known-probes", "pkg": COMPOSITE, "tests": ["TestVerifKnownProbesC01"]},
-            {"name": "c01-regress", "pkg": COMPOSITE, "tests": ["TestVerifC01Regressions", "TestVerifC01RegressionsEcho"]},
+            {"name": "c01-regress", "pkg": COMPOSITE, "tests": ["TestVerifC01Regressions", "TestVerifC01RegressionsEcho", "TestVerifC01RegressionsSSAReplaced"]},
             {"name": "c01-composite", "pkg": COMPOSITE, "tests": ["TestVerifC01Composite"],
              "checks": {"quick": 2400, "thorough": 100000}, "shards": {"quick": 6, "thorough": 8}},
             {"name": "c01-decorator", "pkg": DECORATOR, "tests": ["TestVerifC01Decorator"],
